@@ -117,6 +117,10 @@ type Config struct {
 	// types 10, 11: 1 byte; H.265 types 36, 37: 2 bytes) at the end of an access
 	// unit. These are the only legal NAL units without a body.
 	EndNALs bool
+	// AuxSlices lets a non-key H.264 access unit end with an auxiliary coded
+	// picture slice (nal_unit_type 19, H.264 §7.4.1 table 7-1) — the only way to
+	// reach the top bit of the 5-bit type field with a non-RTP type.
+	AuxSlices bool
 	// MaxAUs bounds the number of access units of a sequence (default 8), MaxGOP
 	// the GOP length (default 5), MaxUnits the total number of NAL units (default
 	// 40).
@@ -175,12 +179,12 @@ func (c *Config) tag() uint64 {
 
 // NAL unit type numbers used by the generators.
 const (
-	H264Slice, H264IDR, H264SEI, H264SPS, H264PPS, H264AUD, H264EndSeq, H264EndStream = 1, 5, 6, 7, 8, 9, 10, 11
+	H264Slice, H264IDR, H264SEI, H264SPS, H264PPS, H264AUD, H264EndSeq, H264EndStream, H264AuxSlice = 1, 5, 6, 7, 8, 9, 10, 11, 19
 
-	H265TrailN, H265TrailR                         = 0, 1
-	H265BlaWLP, H265IdrWRadl, H265IdrNLP, H265Cra  = 16, 19, 20, 21
-	H265VPS, H265SPS, H265PPS, H265AUD, H265EOS    = 32, 33, 34, 35, 36
-	H265EOB, H265PrefixSEI                         = 37, 39
+	H265TrailN, H265TrailR                        = 0, 1
+	H265BlaWLP, H265IdrWRadl, H265IdrNLP, H265Cra = 16, 19, 20, 21
+	H265VPS, H265SPS, H265PPS, H265AUD, H265EOS   = 32, 33, 34, 35, 36
+	H265EOB, H265PrefixSEI                        = 37, 39
 )
 
 // H264Types / H265Types are the unit types DrawNAL picks from when asked for
@@ -220,7 +224,13 @@ func DrawSize(t *rapid.T, min, max int, label string) int {
 		return clamp(184*k + rapid.IntRange(-2, 2).Draw(t, label+"-d"))
 	case c < 92:
 		return clamp(rapid.IntRange(1501, 20000).Draw(t, label+"-large"))
-	case c < 97:
+	case c < 94:
+		// 16-bit size fields: sign-bit and top-of-range edges; 65520 / 65523 are the
+		// largest units that still fit an aggregate / a single packet of 65535 bytes
+		return clamp(rapid.SampledFrom([]int{32767, 32768, 32769, 65519, 65520, 65521, 65523, 65524}).Draw(t, label+"-16bit"))
+	case c < 96:
+		return clamp(rapid.IntRange(20001, 65532).Draw(t, label+"-xlarge"))
+	case c < 98:
 		return clamp(rapid.SampledFrom([]int{65533, 65534, 65535, 65536, 65537, 65538}).Draw(t, label+"-64k"))
 	default:
 		return clamp(rapid.IntRange(65539, 70000).Draw(t, label+"-huge"))
@@ -450,6 +460,9 @@ func (c *Config) DrawAccessUnit(t *rapid.T, key bool, label string) AccessUnit {
 				add(H264Slice, "slice")
 			}
 		}
+		if c.AuxSlices && !key && pct(12, "aux?") {
+			add(H264AuxSlice, "aux")
+		}
 		if c.EndNALs && pct(10, "end?") {
 			add(rapid.SampledFrom([]byte{H264EndSeq, H264EndStream}).Draw(t, label+"-endtype"), "end")
 		}
@@ -626,6 +639,11 @@ type PackConfig struct {
 	MaxFrags int
 	// Only* restrict the modes (all false = every legal mode).
 	OnlySingle, OnlyAggregate, OnlyFragment bool
+	// WholeParamSets never carries an SPS / PPS / VPS NAL unit as FU-A / FU
+	// fragments: it stays a single NAL unit packet or part of an aggregate (all
+	// other units keep every mode). Only if MaxPacket is so small that the
+	// parameter set fits neither is it fragmented after all.
+	WholeParamSets bool
 	// StartSeq fixes the first sequence number; nil = drawn (0, 65535, a start that
 	// makes the numbers wrap inside the stream, or anything).
 	StartSeq *uint16
@@ -795,6 +813,9 @@ func Packetise(t *rapid.T, codec Codec, aus []AccessUnit, pc PackConfig) *Stream
 				run++
 			}
 			canAgg := run >= minAgg
+			if pc.WholeParamSets && isParamSet(codec, nal) && (canSingle || canAgg) {
+				canFrag = false
+			}
 			if pc.OnlySingle && canSingle {
 				canAgg, canFrag = false, false
 			}
@@ -871,6 +892,14 @@ func Packetise(t *rapid.T, codec Codec, aus []AccessUnit, pc PackConfig) *Stream
 		s.Meta = append(s.Meta, p.meta)
 	}
 	return s
+}
+
+func isParamSet(c Codec, nal []byte) bool {
+	t := c.NalType(nal)
+	if c == H264 {
+		return t == H264SPS || t == H264PPS
+	}
+	return t == H265VPS || t == H265SPS || t == H265PPS
 }
 
 func drawStartSeq(t *rapid.T, fixed *uint16, n int) uint16 {
